@@ -9,11 +9,13 @@ import (
 	"io"
 	"math/rand"
 	"os"
+	"strings"
 	"sync"
 	"testing/iotest"
 
 	"github.com/datastax/go-cassandra-native-protocol/client"
 	"github.com/datastax/go-cassandra-native-protocol/frame"
+	"github.com/datastax/go-cassandra-native-protocol/message"
 	"github.com/datastax/go-cassandra-native-protocol/primitive"
 )
 
@@ -136,7 +138,20 @@ func frameStream(args []string) int {
 					srcKind = "buffer"
 				}
 				rnd := rand.New(rand.NewSource(*seedv*7919 + int64(ri)))
-				pick := func(f int) poolFrame { return pool[(ri*31+f*17+int(*seedv))%len(pool)] }
+				pick := func(f int) poolFrame {
+					pf := pool[(ri*31+f*17+int(*seedv))%len(pool)]
+					if f == 1 && ri%7 == 3 {
+						// size class "big": identifier 1 stands for a frame whose body exceeds the 1 MiB blocks readers
+						// and compressors work in (and is not a power of two): a QUERY of the same version
+						text := strings.Repeat("SELECT something_long FROM a_table; ", 30000+ri%977) + strings.Repeat("x", ri%31)
+						big := frame.NewFrame(pf.f.Header.Version, int16(1+ri%100), &message.Query{Query: text, Options: &message.QueryOptions{Consistency: primitive.ConsistencyLevelOne}})
+						abs := projectFrame(big)
+						var a interface{}
+						_ = json.Unmarshal([]byte(canonAbs(abs)), &a)
+						return poolFrame{a, canonAbs(abs), big}
+					}
+					return pf
+				}
 				rp := map[string]interface{}{"check": "framestream", "run": run.Steps, "compression": comp, "source": srcKind, "seed": *seedv, "index": ri}
 				var viol []Violation
 				bad := func(prop, sig, detail string) {
